@@ -4,7 +4,7 @@
    transport (crossbeam channels of whole messages: a handle is a reference). *)
 From Coq Require Import List Arith ZArith Bool.
 From IPC Require Import K KProofs Prog Ideal Unix RefineProofs.
-From IPC Require K Prog Ideal Api ApiProofs ApiInv ApiConservative.
+From IPC Require K Prog Ideal Api ApiProofs ApiInv ApiConservative Timed TimedProofs.
 Import ListNotations.
 
 Theorem C19_unix_is_ideal : forall ops : list op, snd (u_run u_init ops) = snd (i_run i_init ops).
@@ -65,3 +65,19 @@ Theorem C19_api_accept_departed_client : forall s sh c, a_inv s ->
 Proof. exact accept_of_a_departed_client. Qed.
 Print Assumptions C19_api_accept_departed_client.
 End ApiLevel.
+
+(* ---- the three receive variants on the two transports (model: Timed.recv_first for the OS transport, Timed.inproc_recv for the
+   in-process one): the same answer in every queue state, for every event during a wait and every timeout the OS transport can
+   express ---- *)
+Module Receives.
+Import Timed TimedProofs.
+Local Open Scope Z_scope.
+Theorem C19_receive_variants_agree : forall m q d,
+  (forall us, m = MTimeout us -> poll_arg us <> -1) ->
+  inproc_recv m q d = fst (fst (recv_first m q d false)).
+Proof. exact transports_agree. Qed.
+Print Assumptions C19_receive_variants_agree.
+Theorem C19_inproc_dead_is_disconnected : forall m d, inproc_recv m QDead d = ODisconnected.
+Proof. exact inproc_dead_is_disconnected. Qed.
+Print Assumptions C19_inproc_dead_is_disconnected.
+End Receives.
